@@ -97,7 +97,7 @@ type Conn struct {
 	// Stalls: stream positions at which a Read fails once with a timeout error
 	// (read deadline expired) before the byte at that position is delivered;
 	// a Read never crosses a pending stall position. Ascending order.
-	Stalls []int
+	Stalls  []int
 	stalled int
 }
 
